@@ -279,13 +279,14 @@ CLAIMS: dict[str, tuple[str, str, str, str]] = {
         "§6 C18",
     ),
     "C06": (
-        "PARTIAL: PROVED for the modelled sub-parser (normalize, line scan, block loop, rules code, fence, blockquote, hr, "
-        "heading, paragraph with their terminator chains and nested runs; tied to the real parser by the qblock differential "
-        "check): C06c.quote_law — for every tab-free document D given by its lines, every subset of the optional rules, "
+        "PARTIAL: PROVED for the modelled sub-parser (normalize, line scan, block loop, rules code, fence, blockquote, hr, list, "
+        "heading, paragraph with their terminator chains and nested runs; tied to the real parser by the qblock / lblock differential "
+        "checks): C06c.quote_law (chains without lists) and C06d.l_quote_law (with lists: quotes and lists nested in each other, tight and "
+        "loose, ordered with start numbers, empty items, markTightParagraphs) — for every tab-free document D given by its lines, every subset of the optional rules, "
         "every maxNesting >= 0: prefixing every line with '> ' ('>' for an empty line) parses, with maxNesting+1, to exactly "
         "one block quote over all lines whose content is the token stream of D one level deeper with the same maps "
         "(unbounded: by the simulation of C06b — bsCount-independence on tab-free line tables, level/maxNesting shift — "
-        "over all rules, the loop and nested runs). Also lemma A quote_strip and lemma D nested_loop_frame. MISSING: the "
+        "over all rules, the loop and nested runs; Props/C07b-c for the list rule). Also lemma A quote_strip and lemma D nested_loop_frame. MISSING: the "
         "list law, rules outside the sub-parser, tabs, the same-maxNesting form: decided by the oracle, which applies both "
         "laws to the implementation on generated documents, repeatedly to depth 6, all marker shapes. Known finding K-C06-1 "
         "(HTML blocks with a blank line are cut inside list items). Tie: per-line records of the live block-quote rule vs "
@@ -298,12 +299,13 @@ CLAIMS: dict[str, tuple[str, str, str, str]] = {
         "PARTIAL (engine level FULL): frame — under the rule contracts the block loop, whatever happens inside its blocks "
         "and containers, returns with the line tables, lineMax, blkIndent and level of its entry state (no indentation "
         "bookkeeping leaks into the next block); stages — blocks are emitted with increasing, disjoint line ranges. "
-        "The suffix half of the law is a theorem for the modelled sub-parser with block quotes (Props/C07b.lean suffix_shift, "
-        "concat_law; model tied by the qblock differential check): once the top-level loop stands at the first line of a tab-free "
+        "The suffix half of the law is a theorem for the modelled sub-parser code, fence, blockquote, hr, list, heading, paragraph "
+        "(Props/C07b.lean suffix_shift, concat_law for the chains with quotes; Props/C07c.lean l_suffix_shift, l_concat_law with lists; "
+        "models tied by the qblock / lblock differential checks): once the top-level loop stands at the first line of a tab-free "
         "B, n lines into the table — whatever those lines contain, whatever tokens, tight, parentType and hasEmptyLines the earlier "
         "blocks left behind — it appends exactly the stream of B parsed alone, every map shifted by n (a simulation with a line "
         "shift through every rule, the terminator chains, the loop and the nested runs, for every rule subset and maxNesting). "
-        "MISSING: the prefix half (that the loop comes to stand at B's first line: look-ahead locality per rule), lists and the "
+        "MISSING: the prefix half (that the loop comes to stand at B's first line: look-ahead locality per rule) and the "
         "rules outside the sub-parser; decided by the oracle on pairs (A, B) incl. targeted B-blocks whose parse depends on what "
         "precedes them. Tie: contract monitor on every real rule call + replay of real block loops on the Lean loop + qblock.",
         NOTE + "Rule contracts assumed by the engine theorems and checked at run time.",
